@@ -36,7 +36,7 @@ LOOP_END = """proof {
 
 def build():
     u = Unit("tacd", "tacd")
-    u.prelude("stdx", "tacd_shims")
+    u.prelude("stdx", "time", "tacd_shims")
     u.take("tacd/src/main.rs", "ALPN_ACME_PROTO_NAME", "")
     u.module("openssl_server", "use crate::*;\nuse crate::acme_common::crypto::{KeyPair, X509Certificate};\n"
              "use crate::anyhow::Result;\nuse crate::openssl::ssl::{self, AlpnError, HandshakeError, SslAcceptor, SslMethod, SslRef, SslStream, SslVersion};\n"
@@ -45,7 +45,7 @@ def build():
     u.raw("openssl_server", "broadcast use crate::anyhow::axiom_from_origin;")
     u.macro(S, "listen_and_accept")
     u.verify(S, "start", "openssl_server", props=["C17", "C16"], fns={"start": FnSpec(ret="r", try_explicit=True,
-        body_start="let ghost in_conn_thread__ = false; let tracked mut spawned__ = crate::vnet::Spawned::none();", sig="""
+        body_start="let ghost in_conn_thread__ = false; let tracked mut spawned__ = crate::vnet::Spawned::none(); let ghost addr_given__ = listen_addr@;", sig="""
     ensures
         // whatever a client does to its own connection, the server goes on accepting: start never ends on an error of one connection
         r matches Err(e) ==> e.origin@ != 1, //@C17.a_connection_cannot_end_the_accept_loop
@@ -64,7 +64,14 @@ def build():
         ("T-THREAD", r"thread::spawn\((?:move )?\|\| \{", spawn_rw, None),
         ("T-THREAD", r"thread::spawn\((?!(?:move )?\|\| \{)", spawn_guard, None),
         ("T-THREAD", r"\.accept\((?P<a>[^()]*)\)", r".accept(\g<a>, Ghost(in_conn_thread__))", None),
+        ("T-THREAD", r"\b(?:std::)?process::exit\(", "crate::vnet::process_exit(", None),
     ], at=[("before_stmt_re", r"let \w+ = &listen_addr\[", 1, 'proof { reveal_strlit("unix:"); }'),
+           ("before_stmt_re", r"UnixListener::bind\(", 1, """
+        proof {
+            // `unix:PATH` listens on PATH: what follows the prefix, all of it
+            reveal_strlit("unix:");
+            assert(listen_addr@ == addr_given__.skip(5)); //@C16.the_unix_socket_is_the_path_after_the_prefix,C17.the_unix_socket_is_the_path_after_the_prefix
+        }"""),
            ("loop_start", None, 1, LOOP_START), ("loop_end", None, 1, LOOP_END),
            ("loop_start", None, 2, LOOP_START), ("loop_end", None, 2, LOOP_END)])})
     return u
